@@ -263,6 +263,16 @@ def generate(tier, rng):
         yield 'matrix', {'spec': spec, 'form': forms[j % 4], 'geo': geos2[j % 4], 'via_assemble': bool(j % 4 == 1)}
         if j % 2:
             yield 'functional', {'spec': spec, 'functional': ['l2', 'grad'][j % 4 // 2], 'geo': geos2[(j + 1) % 4]}
+    # nested strips: the level-(l+1) region touches the inner (non-domain) boundary of the level-l region, so that coarse functions meet
+    # active fine functions only inside cells that are already refined further
+    for j, (p, disp) in enumerate(((2, 'inf'), (3, 'inf'), (2, 2), (1, 'inf'))):
+        n = 4
+        right_half = [[y, x] for y in range(n) for x in range(n // 2, n)]
+        strip = [[y, x] for y in range(2 * n) for x in range(n, n + 2)]
+        spec = {'dim': 2, 'n': n, 'p': p, 'disparity': disp, 'history': [{'0': right_half}, {'1': strip}]}
+        yield 'matrix', {'spec': spec, 'form': forms[j % 2], 'geo': ['unit', 'bump'][j % 2]}
+        spec1 = {'dim': 1, 'n': 4, 'p': p, 'disparity': disp, 'history': [{'0': [[2], [3]]}, {'1': [[4], [5]]}, {'2': [[8], [9]]}]}
+        yield 'matrix', {'spec': spec1, 'form': forms[(j + 1) % 4], 'geo': 'bump'}
     # persistent objects: histories that return to coarser levels after finer ones (no new level is added by such a step)
     for j in range(8 if quick else 40):
         dim = 1 + j % 2
